@@ -40,10 +40,27 @@ Qed.
 Lemma remaining_abs : forall s cl p, remaining_of (abs s) cl p = rem_m s cl p.
 Proof. intros. unfold remaining_of, rem_m, conns_of. rewrite ap_at_abs. reflexivity. Qed.
 
-Lemma m_remaining_phi : forall s l cl, m_remaining (abs s) (map pl l) cl = phi s cl l.
+Lemma m_remaining_phi : forall s g l cl, m_remaining (abs s) g (map pl l) cl = phi s g cl l.
 Proof.
-  intros. unfold m_remaining, phi. rewrite map_map. f_equal. apply map_ext. intros e. unfold pl. cbn [fst snd].
-  rewrite remaining_abs. reflexivity.
+  intros. unfold m_remaining, phi. rewrite map_map. f_equal. apply map_ext. intros e. unfold pl, incl. cbn [fst snd].
+  rewrite remaining_abs, ap_at_abs. reflexivity.
+Qed.
+
+Lemma find_pl : forall p l,
+  find (fun e : nat * bool => Nat.eqb (fst e) p) (map pl l) = option_map pl (find (fun e => Nat.eqb (ce_p e) p) l).
+Proof.
+  intros p l. induction l as [|e r IH]; cbn [map find option_map]; [reflexivity|].
+  unfold pl at 1. cbn [fst]. destruct (Nat.eqb (ce_p e) p); [reflexivity|exact IH].
+Qed.
+
+Lemma closed_out_of_grace_ok : forall cfg cs, CInv cfg cs ->
+  closed_out_of_grace (abs (cs_s cs)) (cs_gstart cs) (map pl (cs_cands cs)) (cs_sel cs) = true.
+Proof.
+  intros cfg cs H. unfold closed_out_of_grace. apply forallb_forall. intros [p c] Hin. cbn [fst]. rewrite find_pl.
+  destruct (find (fun e => Nat.eqb (ce_p e) p) (cs_cands cs)) as [e|] eqn:Ef; cbn [option_map]; [|reflexivity].
+  destruct (find_some _ _ Ef) as [He Hp]. apply Nat.eqb_eq in Hp. unfold pl. cbn [snd].
+  destruct (ce_live e) eqn:El; cbn [negb orb]; [|reflexivity].
+  destruct (ci_self _ _ H p c e Hin He Hp El) as [_ Hf]. rewrite ap_at_abs. cbn. apply Z.leb_le. exact Hf.
 Qed.
 
 Lemma closed_code_ok : forall l bad cl, (forall p c, In (p, c) cl -> exists e, In e l /\ ce_p e = p) ->
@@ -148,7 +165,7 @@ Proof.
     { rewrite Ja, (acount_abs _ Hinv). unfold disabled. destruct (c_low cfg =? 0), (c_high cfg =? 0), (count (cs_s cs) <=? c_low cfg); reflexivity. }
     destruct ((c_low cfg =? 0) || (c_high cfg =? 0) || (count (cs_s cs) <=? c_low cfg)) eqn:Ec;
       inversion Hs; subst cs' evs; clear Hs; cbn [cmon cmon_step]; rewrite Jact; cbn [negb]; rewrite Hpr; cbn [negb].
-    + cbn [closed_code Z.eqb negb is_nil andb m_cands m_bad m_proceed]. eexists. split; [reflexivity|].
+    + cbn [closed_code Z.eqb negb is_nil andb m_cands m_bad m_proceed closed_out_of_grace forallb]. eexists. split; [reflexivity|].
       constructor; jsimpl; try reflexivity; try assumption; try (intros; discriminate); try (rewrite Ja; reflexivity).
     + eexists. split; [reflexivity|]. constructor; jsimpl; try reflexivity; try assumption; try (rewrite Ja; reflexivity).
   - (* ASnap *)
@@ -164,12 +181,12 @@ Proof.
   - (* ASnapEnd *)
     destruct (cs_ph cs) as [|vis| | |] eqn:Eph; try discriminate. destruct (negb (sweep_done _ _ _)); [discriminate|].
     destruct (cs_ncand cs <? c_low cfg) eqn:En; inversion Hs; subst cs' evs; clear Hs.
-    + cbn [cmon cmon_step]. rewrite Jc, closed_code_ok by (intros p c []). cbn [Z.eqb negb is_nil andb].
-      rewrite (Jp eq_refl). cbn [negb andb]. rewrite Ja, m_remaining_phi, Jad.
+    + cbn [cmon cmon_step]. rewrite Jc, closed_code_ok by (intros p c []). cbn [Z.eqb negb is_nil andb closed_out_of_grace forallb].
+      rewrite (Jp eq_refl). cbn [negb andb]. rewrite Ja, Jg, m_remaining_phi, Jad.
       destruct (ci_early _ _ H) as [Es _]; [rewrite Eph; reflexivity|].
       destruct (ci_c _ _ H (cs_ncand cs)) as [HD HU]; [unfold cbound; rewrite Eph; reflexivity|].
-      pose proof (phi_le (cs_s cs) (cs_sel cs) (cs_cands cs)) as Hphi. rewrite Es in Hphi, HD. apply Z.ltb_lt in En.
-      replace (phi (cs_s cs) [] (cs_cands cs) <=? c_low cfg + (cs_added1 cs + cs_added2 cs)) with true
+      pose proof (phi_le (cs_s cs) (cs_gstart cs) (cs_sel cs) (cs_cands cs)) as Hphi. rewrite Es in Hphi, HD. apply Z.ltb_lt in En.
+      replace (phi (cs_s cs) (cs_gstart cs) [] (cs_cands cs) <=? c_low cfg + (cs_added1 cs + cs_added2 cs)) with true
         by (symmetry; apply Z.leb_le; lia).
       cbn [negb]. eexists. split; [reflexivity|]. constructor; jsimpl; try assumption; try reflexivity; try (intros; discriminate).
     + cbn [cmon cmon_step]. eexists. split; [reflexivity|]. constructor; jsimpl; try assumption; try reflexivity;
@@ -185,7 +202,7 @@ Proof.
     inversion Hs; subst cs' evs; clear Hs. exists m. split; [reflexivity|].
     constructor; jsimpl; try assumption; try reflexivity; try (rewrite Jact; reflexivity).
   - (* ASelect *)
-    destruct (cs_ph cs) as [| | |todo tg|] eqn:Eph; try discriminate.
+    unfold select_step in Hs. destruct (cs_ph cs) as [| | |todo tg|] eqn:Eph; try discriminate.
     assert (Hact : m_active m = true) by (rewrite Jact; reflexivity).
     assert (Hpr : m_proceed m = true) by (apply Jp; reflexivity).
     destruct todo as [|p r].
@@ -196,7 +213,10 @@ Proof.
         -- destruct (negb (ce_live e)).
            ++ inversion Hs; subst cs' evs; clear Hs. exists m. split; [reflexivity|]. constructor; jsimpl; try assumption; try reflexivity.
               rewrite mark_done_pl. exact Jc.
-           ++ destruct (is_nil (p_conns (peer_at (cs_s cs) p)) && p_temp (peer_at (cs_s cs) p)) eqn:Epr;
+           ++ destruct (true && (cs_gstart cs <? p_first (peer_at (cs_s cs) p))).
+              { inversion Hs; subst cs' evs; clear Hs. exists m. split; [reflexivity|]. constructor; jsimpl; try assumption; try reflexivity.
+                rewrite mark_done_pl. exact Jc. }
+              destruct (is_nil (p_conns (peer_at (cs_s cs) p)) && p_temp (peer_at (cs_s cs) p)) eqn:Epr;
                 inversion Hs; subst cs' evs; clear Hs.
               ** apply andb_true_iff in Epr. destruct Epr as [Enil Etmp].
                  assert (Etr : p_tracked (peer_at (cs_s cs) p) = true).
@@ -212,9 +232,10 @@ Proof.
   - (* AFinish *)
     destruct (cs_ph cs) eqn:Eph; try discriminate. inversion Hs; subst cs' evs; clear Hs.
     cbn [cmon cmon_step]. rewrite Jc, closed_code_ok by (apply (ci_sel _ _ H)). cbn [Z.eqb negb].
-    rewrite (Jp eq_refl). cbn [negb andb]. rewrite Ja, m_remaining_phi, Jad.
+    rewrite Ja, Jg, (closed_out_of_grace_ok cfg cs H). cbn [negb].
+    rewrite (Jp eq_refl). cbn [negb andb]. rewrite m_remaining_phi, Jad.
     pose proof (phi_at_close cfg cs H Eph) as Hphi.
-    replace (phi (cs_s cs) (cs_sel cs) (cs_cands cs) <=? c_low cfg + (cs_added1 cs + cs_added2 cs)) with true
+    replace (phi (cs_s cs) (cs_gstart cs) (cs_sel cs) (cs_cands cs) <=? c_low cfg + (cs_added1 cs + cs_added2 cs)) with true
       by (symmetry; apply Z.leb_le; lia).
     cbn [negb]. eexists. split; [reflexivity|]. constructor; jsimpl; try assumption; try reflexivity; try (intros; discriminate).
 Qed.
